@@ -171,6 +171,7 @@ type c35Model struct {
 	lighthouses []netip.Addr
 	version     int
 	respond     bool
+	nets        []netip.Prefix // own overlay networks: addresses inside them are never recorded
 	addrMap     map[netip.Addr]*c35List
 }
 
@@ -218,8 +219,23 @@ func c35Cap(a []netip.AddrPort) []netip.AddrPort {
 
 func (m *c35Model) store(l *c35List, owner netip.Addr, msg *c35Msg) {
 	o := l.own(owner)
-	o.rep4 = c35Cap(msg.v4)
-	o.rep6 = c35Cap(msg.v6)
+	// mangled messages can carry addresses inside the own overlay networks; those are dropped
+	// (after the cap of ten), see C36
+	keep := func(in []netip.AddrPort) []netip.AddrPort {
+		out := []netip.AddrPort{}
+		for _, a := range in {
+			inside := false
+			for _, n := range m.nets {
+				inside = inside || n.Contains(a.Addr())
+			}
+			if !inside {
+				out = append(out, a)
+			}
+		}
+		return out
+	}
+	o.rep4 = keep(c35Cap(msg.v4))
+	o.rep6 = keep(c35Cap(msg.v6))
 	r := msg.relays
 	if len(r) > 10 {
 		r = r[:10]
@@ -746,7 +762,7 @@ func c35Run(cfg c35Cfg, reqs []c35Req) (failure string, labels []string, nontriv
 	lh.handshakeTrigger = trig
 	lhh := lh.NewRequestHandler()
 
-	m := &c35Model{amLH: cfg.amLH, version: cfg.version, respond: cfg.respond, addrMap: map[netip.Addr]*c35List{}}
+	m := &c35Model{amLH: cfg.amLH, version: cfg.version, respond: cfg.respond, nets: nets, addrMap: map[netip.Addr]*c35List{}}
 	for _, s := range cfg.lhs {
 		m.lighthouses = append(m.lighthouses, netip.MustParseAddr(s))
 	}
